@@ -9,8 +9,10 @@
    The model follows /repo AS REPAIRED (pandas keys of IntervalSet.__getitem__ are positional; merge_group
    sorts the concatenated metadata by key); the forms as they were before the repairs are kept as
    iset_get_labels_orig / iset_get_bseries_orig / group_merge_orig with what was right and wrong about them.
-   NOT MODELLED (exercised by the harness only): save/load; merge_group(reset_index=True) is modelled and
-   compared with the implementation but has no theorem; in-place corruption of operands cannot be
+   NOT MODELLED (exercised by the harness only): save/load; ep[rows, column name(s)] (the model has no column
+   axis: the harness holds it to the rows of ep[rows, 'start']); NumPy functions permuting the columns of a TsdFrame
+   (np.flip / np.roll / np.take along axis 1: labels and metadata stay, the data moves - a known finding);
+   merge_group of more than two groups; in-place corruption of operands cannot be
    expressed in this functional model (the harness re-checks the operands after every merge). *)
 From Verif Require Import Base.Prelude Model.Iset Model.Meta Proofs.InterDiffProofs Proofs.MetaProofs.
 From Coq Require Import Permutation.
@@ -26,6 +28,16 @@ Theorem C13_trim_touch_is_identity_up_to_1us : forall l,
   Forall2 (fun o i => fst o = fst i /\ (snd o = snd i \/ snd o = snd i - us)) (trim_touch l) l.
 Proof. exact trim_touch_spec. Qed.
 Print Assumptions C13_trim_touch_is_identity_up_to_1us.
+
+(* exactly which ends: an end is given back 1 us earlier iff it EQUALS the next start (touching), no other end moves *)
+Theorem C13_trim_touch_exact : forall l i s e, nth_error l i = Some (s, e) ->
+  nth_error (trim_touch l) i
+  = Some (s, match nth_error l (S i) with
+             | Some (s', _) => if e =? s' then e - us else e
+             | None => e
+             end).
+Proof. exact trim_touch_exact. Qed.
+Print Assumptions C13_trim_touch_exact.
 
 Theorem C13_ctor_drops_unsorted_or_repaired : forall (T : Type) (l : list (Z * Z)) (m : frame T),
   strict_incb (map fst l) = false \/ strict_incb (map snd l) = false
@@ -108,6 +120,39 @@ Theorem C13_iset_index_bool_series_orig_refuted :
                        /\ nth_error (fst o) p = Some (s, e) /\ nth_error (rows (snd o)) p <> Some t.
 Proof. exact iset_get_bseries_orig_refuted. Qed.
 Print Assumptions C13_iset_index_bool_series_orig_refuted.
+
+(* the tuple form ep[boolean pd.Series, :] BEFORE its repair took the intervals by position and the metadata by
+   .iloc[Series], which pandas aligns on the labels: the same misattachment as the bare form had.  As repaired
+   (key[0] = np.asarray(key[0])) the tuple forms ep[pd.Index / pd.Series, :] ARE iset_get_labels / iset_get_bseries,
+   so C13_iset_index_pandas_int_keys / C13_iset_index_bool_series state them; the harness compares both forms
+   with the same model function. *)
+Theorem C13_iset_index_tuple_bool_series_orig_refuted :
+  exists (o : tiset Z) mask out m,
+    wf_tiset o /\ Permutation (map fst mask) (rangeZ (length (fst o)))
+    /\ iset_get_bseries_tuple_orig o mask = Kept out m
+    /\ exists s e t p, nth_error out 0 = Some (s, e) /\ loc1 m 0 = Some t
+                       /\ nth_error (fst o) p = Some (s, e) /\ nth_error (rows (snd o)) p <> Some t.
+Proof. exact iset_get_bseries_tuple_orig_refuted. Qed.
+Print Assumptions C13_iset_index_tuple_bool_series_orig_refuted.
+
+(* groupby(by, get_group = v) (p = "the row's value of `by` is v"): never drops the metadata, returns exactly
+   the intervals whose own row is in the group, unchanged and in order, each with that row.
+   (ep.loc[list] is ep[list]: C13_iset_index_attach.) *)
+Theorem C13_iset_groupby_attach : forall (T : Type) (o : tiset T) (p : T -> bool),
+  wf_tiset o ->
+  iset_get_group o p
+  = Kept (map snd (filter (fun x => p (fst x)) (combine (rows (snd o)) (fst o))))
+         (range_frame (filter p (rows (snd o)))).
+Proof. exact @iset_get_group_total. Qed.
+Print Assumptions C13_iset_groupby_attach.
+
+Theorem C13_iset_groupby_pointwise : forall (T : Type) (o : tiset T) (p : T -> bool) out m,
+  iset_get_group o p = Kept out m ->
+  forall i s e', nth_error out i = Some (s, e') ->
+    exists q e t, nth_error (fst o) q = Some (s, e) /\ (e' = e \/ e' = e - us)
+                  /\ nth_error (rows (snd o)) q = Some t /\ loc1 m (Z.of_nat i) = Some t.
+Proof. exact @iset_get_group_pointwise. Qed.
+Print Assumptions C13_iset_groupby_pointwise.
 
 (* ---- intersect / set_diff / split: each output interval lies in the parent(s) whose row it carries ---- *)
 Theorem C13_intersect_parents : forall (T U : Type) (a : tiset T) (b : tiset U),
@@ -231,6 +276,19 @@ Theorem C13_group_merge_total : forall (M T : Type) (a b : tgroup M T),
 Proof. exact @group_merge_total. Qed.
 Print Assumptions C13_group_merge_total.
 
+(* merge_group(reset_index=True): always returns (no disjointness needed), the keys are 0..n-1, and the sequence of
+   (member, metadata row found under the member's key) pairs is that of a followed by that of b: every member keeps
+   its own row under its new key *)
+Theorem C13_group_merge_reset_attach : forall (M T : Type) (a b : tgroup M T),
+  wf_group a -> wf_group b ->
+  exists o', group_merge true a b = Some o'
+    /\ map fst (fst o') = rangeZ (length (fst a) + length (fst b))
+    /\ map (fun t => (snd (fst t), snd t)) (triples o')
+       = map (fun t => (snd (fst t), snd t)) (triples a ++ triples b)
+    /\ wf_group o'.
+Proof. exact @group_merge_reset_attach. Qed.
+Print Assumptions C13_group_merge_reset_attach.
+
 (* before the repair (metadata concatenated, not sorted) interleaved keys made merge_group raise *)
 Theorem C13_group_merge_orig_interleaved_refuted :
   exists (a b : tgroup Z Z), wf_group a /\ wf_group b
@@ -254,5 +312,9 @@ Example C13_nonvacuous :
   /\ group_merge false ([(1, 10); (5, 50)], [(1, 100); (5, 500)]) ([(2, 20); (3, 30)], [(2, 200); (3, 300)])
      = Some ([(1, 10); (2, 20); (3, 30); (5, 50)], [(1, 100); (2, 200); (3, 300); (5, 500)])
   /\ iset_get_bseries ([(0, 10); (20, 30)], range_frame [100; 200]) [(1, true); (0, false)]
-     = Kept [(0, 10)] [(0, 100)].
+     = Kept [(0, 10)] [(0, 100)]
+  /\ iset_get_group ([(0, 10); (20, 30); (40, 50)], range_frame [100; 200; 300]) (fun t => negb (t =? 200))
+     = Kept [(0, 10); (40, 50)] [(0, 100); (1, 300)]
+  /\ iset_get_bseries_tuple_orig ([(0, 10); (20, 30)], range_frame [100; 200]) [(1, true); (0, false)]
+     = Kept [(0, 10)] [(0, 200)].
 Proof. vm_compute. repeat split; try reflexivity; lia. Qed.
